@@ -482,10 +482,10 @@ class Pipeline:
     One instance per (harness, trace spec); several scenario sets may be pushed through it."""
 
     def __init__(self, prop, harness, trace_module, trace_cfg=None, harness_args=(), variant="asan",
-                 libs=("-lpcap", "-lcrypto", "-lpthread")):
+                 libs=("-lpcap", "-lcrypto", "-lpthread"), extra_flags=()):
         self.prop, self.harness, self.module, self.cfg = prop, harness, trace_module, trace_cfg
         self.hargs = list(harness_args)
-        self.exe = build_harness(harness, variant, libs)
+        self.exe = build_harness(harness, variant, libs, extra_flags)
         self.dir = workdir(prop)
         self.candidates = []      # (scenario, sid, kind, detail)
         self.stats = {"scenarios": 0, "executions": 0, "events": 0, "tlc_states": 0, "tlc_generated": 0,
@@ -506,7 +506,7 @@ class Pipeline:
         self.stats["replay_s"] += res["wall"]
         for c in res["crashes"]:
             self.stats["crashes"] += 1
-            self.candidates.append((scenarios[c["sid"]], c["sid"], "crash", c.get("why", "") + " " + c.get("summary", ""), args))
+            self.candidates.append((scenarios[c["sid"]], c["sid"], "crash", c.get("why", "") + " " + c.get("summary", ""), args, None))
         idx = read_trace_index(tp)
         self.stats["executions"] += len(idx)
         self.stats["events"] += sum(v["n"] for v in idx.values())
@@ -519,12 +519,13 @@ class Pipeline:
             seen = set()
             for rec in rejected:
                 self.stats["rejected"] += 1
-                if rec["sid"] in seen:
+                key = json.dumps({k: v for k, v in rec.items() if k not in ("line", "n", "e")}, sort_keys=True)
+                if key in seen:
                     continue
-                seen.add(rec["sid"])
+                seen.add(key)
                 self.candidates.append((scenarios[rec["sid"]], rec["sid"], "rejected",
                                         "trace of the real code rejected by %s: execution %s" % (
-                                            self.module, json.dumps({k: v for k, v in rec.items() if k not in ("e",)})), args))
+                                            self.module, json.dumps({k: v for k, v in rec.items() if k not in ("e",)})), args, rec))
             if not self.samples:
                 with open(tp) as f:
                     self.samples = [json.loads(x) for _, x in zip(range(4), f)]
@@ -532,8 +533,14 @@ class Pipeline:
             self.harness, tag, len(scenarios), len(idx), len(res["crashes"]),
             self.stats["rejected"], res["wall"]))
 
-    def rerun_one(self, scen, sid, args, tag="confirm"):
-        """Re-run one scenario alone in a fresh process with the same seed/sid; returns (kind, detail, trace lines)."""
+    @staticmethod
+    def _same_exec(a, b):
+        strip = lambda r: {k: v for k, v in r.items() if k not in ("line", "n", "e")}
+        return strip(a) == strip(b)
+
+    def rerun_one(self, scen, sid, args, tag="confirm", rec=None):
+        """Re-run one scenario alone in a fresh process with the same seed/sid; returns (kind, detail, trace lines).
+        If rec is given, only a rejection of that same execution (same Reset record) counts."""
         sp = os.path.join(self.dir, "%s-%s.scen.jsonl" % (self.harness, tag))
         tp = os.path.join(self.dir, "%s-%s.trace.ndjson" % (self.harness, tag))
         write_lines(sp, [scen])
@@ -547,19 +554,18 @@ class Pipeline:
             return "crash", c.get("why", "") + " " + c.get("summary", ""), lines
         if lines:
             rejected, r = validate(self.module, tp, self.cfg)
-            if rejected:
-                rec = rejected[0]
-                n = rec["n"]
-                bad = lines[rec["line"] - 1: rec["line"] + n]
-                return "rejected", "execution rejected by %s" % self.module, bad
+            for rj in rejected:
+                if rec is None or self._same_exec(rj, rec):
+                    bad = lines[rj["line"] - 1: rj["line"] + rj["n"]]
+                    return "rejected", "execution rejected by %s" % self.module, bad
         return None, "", lines
 
     def confirm(self, verdict, sigfn, limit=40):
         """DESIGN 5 rule 4: a candidate counts only if the single scenario fails again on its own."""
         done = 0
         by_sig = {}
-        for scen, sid, kind, detail, args in self.candidates:
-            sig = sigfn(scen, kind, detail)
+        for scen, sid, kind, detail, args, rec in self.candidates:
+            sig = sigfn(scen, kind, detail, rec)
             ks = json.dumps(sig, sort_keys=True)
             by_sig[ks] = by_sig.get(ks, 0) + 1
             if by_sig[ks] > 3 or done >= limit:     # a handful of confirmed examples per class is enough
@@ -567,19 +573,19 @@ class Pipeline:
                     verdict.candidate(sig, detail, None)
                 continue
             done += 1
-            k2, d2, lines = self.rerun_one(scen, sid, args)
+            k2, d2, lines = self.rerun_one(scen, sid, args, rec=rec if kind == "rejected" else None)
             if k2 is None:
                 log("[confirm] scenario %d (%s) did not repeat - not reported" % (sid, kind))
                 continue
             verdict.candidate(sig, "%s: %s" % (k2, d2 or detail),
-                              {"harness": self.harness, "args": list(args), "sid": sid, "scenario": scen,
+                              {"harness": self.harness, "args": list(args), "sid": sid, "scenario": scen, "execution": rec,
                                "trace_module": self.module, "trace": lines[:60]})
 
     def replay_file(self, path):
         with open(path) as f:
             o = json.load(f)
         rp = o["replay"]
-        k, d, lines = self.rerun_one(rp["scenario"], rp["sid"], rp["args"], tag="replay")
+        k, d, lines = self.rerun_one(rp["scenario"], rp["sid"], rp["args"], tag="replay", rec=rp.get("execution"))
         log("replay of %s: %s %s" % (path, k or "accepted", d))
         for x in lines[:40]:
             log("   " + x)
